@@ -9,6 +9,8 @@ cargo build --offline --release -p vserde
 cargo build --offline --release -p vnet --features plain --bin vnet_plain
 cargo build --offline --release -p vnet --features native --bin vnet_native
 cargo build --offline --release -p vnet --features rtls --bin vnet_rtls
+cargo build --offline --release -p vnet --features mixna --bin vnet_mixna
+cargo build --offline --release -p vnet --features mixrn --bin vnet_mixrn
 # the real ipputil binary, from /repo's working tree (C18)
 (cd "${VERIF_REPO:-/repo}" && cargo build --offline --release -p ipp-util --target-dir "$HERE/harness/target/util")
 # warm the Miri build of the core monitors (used by the C02 quick check and the thorough tiers)
